@@ -817,3 +817,72 @@ def s_partition_history(ctx):
 
 SCENARIOS.append(Scenario("C18.builder.partition_history", s_partition_history, [("onnxscript/_internal/tape_builder.py", "BuilderBase._partition_inputs_attributes")],
                           trusted=["OpSignature.from_op_schema(schema) is the signature of that schema (onnx_ir)"]))
+
+
+def s_build_graph_scope(ctx):
+    """build_graph(trace_function, ..., parent=p) / GraphBuilder(graph, parent=p): the body of a subgraph is traced in the
+    module scope that is current IN THE PARENT (a copy of p's scope stack), at ANY nesting depth - p need not be the root:
+    inside a subgraph body the modules entered there are on p's stack, not on the root's; parameters realized in the body
+    register in the ROOT graph; the parent's and the root's stacks are not modified by what the body pushes."""
+    import onnx_ir as ir
+    b = _b()
+    I = Interp(ctx)
+    depth = ctx.choose(3, "parent is the root / a child of the root / a grandchild")
+    root = new_builder(I, ["model"])
+    chain = [root]
+    for d in range(depth):
+        g = SObj(object, f"graph{d + 1}")
+        g.fields.update(initializers={}, opset_imports={"": 18})
+        c = SObj(b.GraphBuilder, f"builder{d + 1}")
+        c.fields.update(_graph=g, _root=root, _parent=chain[-1], _scope_stack=[("model", "Cls")] + [(f"block{i}", "Cls") for i in range(d + 1)])
+        chain.append(c)
+    parent = chain[-1]
+    before_parent = list(parent.fields["_scope_stack"])
+    before_root = list(root.fields["_scope_stack"])
+    made = []
+
+    def m_graph(interp, *a, **k):
+        g = SObj(ir.Graph, "subgraph")
+        g.fields.update(name=k.get("name"), inputs=list(k.get("inputs", [])), outputs=[], opset_imports=dict(k.get("opset_imports", {})), initializers={})
+        made.append(g)
+        return g
+    I.models[ir.Graph] = m_graph
+    I.models[b.GraphBuilder.opset] = lambda interp, slf, domain, version=1: ("op of", slf)
+    seen = {}
+    out_v = SObj(ir.Value, "traced_out")
+    out_v.fields.update(name="t", type=None, shape=None)
+
+    def trace(*a):
+        raise AssertionError
+
+    def m_trace(interp, op, *args):
+        sb = op[1]
+        seen["stack"] = list(sb.fields["_scope_stack"])
+        seen["root"] = sb.fields["_root"]
+        seen["parent"] = sb.fields["_parent"]
+        seen["same_list"] = sb.fields["_scope_stack"] is parent.fields["_scope_stack"]
+        # the body enters a module: pushes on the sub-builder only
+        interp.call(interp.getattr(sb, "push_module"), ["inner", "Inner"])
+        return out_v
+    I.models[trace] = m_trace
+    I.import_overrides = getattr(I, "import_overrides", {})
+    decl = SObj(ir.Value, "declared_out")
+    decl.fields.update(name="y", type=None, shape=None)
+    try:
+        I.call(b.build_graph, [trace, [], [decl]], {"opset_imports": {"": 18}, "parent": parent})
+    except PyRaise as e:
+        ctx.check("C18.builder.build_graph.returns_normally", False, CL_VALID + f" — raised {e.exc!r}")
+        return
+    ok = "stack" in seen
+    ctx.check("C18.builder.build_graph.body_is_traced_once_with_the_sub_builder", ok, CL_VALID)
+    if not ok:
+        return
+    ctx.check("C18.builder.build_graph.body_starts_in_the_module_scope_current_in_the_parent_at_any_depth", seen["stack"] == before_parent,
+              CL_NAME + " — a module called two subgraph levels down is still below the modules entered on the way")
+    ctx.check("C18.builder.build_graph.scope_is_a_copy_parent_and_root_stacks_are_unchanged",
+              (not seen["same_list"]) and parent.fields["_scope_stack"] == before_parent and root.fields["_scope_stack"] == before_root, CL_NAME)
+    ctx.check("C18.builder.build_graph.sub_builder_shares_the_root_of_the_parent", seen["root"] is root and seen["parent"] is parent, CL_NAME)
+
+
+SCENARIOS.append(Scenario("C18.builder.build_graph_scope", s_build_graph_scope, F("build_graph", GB + "__init__", GB + "push_module"),
+                          trusted=["_split_optional_inputs, ir.Graph (construction only)"]))
